@@ -238,6 +238,22 @@ func genLifecycle(r *rand.Rand, id int, seed, tipUnix int64, p1 string, nextra i
 // that never completed a handshake was not retried).
 func genHiccup(r *rand.Rand, id int, seed, tipUnix int64, k, nmis int, pick []int) Hist {
 	h := gen(r, id, seed, tipUnix, false, nmis, pick)
+	// Quick tier: no node that lies in its cfheaders next to the delayed
+	// honest node - that combination reproduces the open finding F-C04-3
+	// (first cfheaders round answered by liars only) every time and runs to
+	// the 85 s deadline; the thorough tier keeps it.
+	for try := 0; quick && pick == nil && try < 20; try++ {
+		liar := false
+		for _, n := range h.Nodes {
+			if n.B.Filter != nil && n.B.Filter.InHeaders {
+				liar = true
+			}
+		}
+		if !liar {
+			break
+		}
+		h = gen(r, id, seed, tipUnix, false, nmis, pick)
+	}
 	for i := range h.Nodes {
 		n := &h.Nodes[i]
 		if n.Chain == "main" && reflect.DeepEqual(n.B, ns.Behaviour{}) {
